@@ -109,20 +109,24 @@ pub fn c04() -> Outcome {
     } }
     // (c) dependency graphs: chains in every insertion order, cycles and dangling references fail cleanly
     let perms: Vec<Vec<u64>> = vec![vec![6, 7, 8], vec![6, 8, 7], vec![7, 6, 8], vec![7, 8, 6], vec![8, 6, 7], vec![8, 7, 6]];
-    for (pi, p) in perms.iter().enumerate() { for kind in 0..5 {
+    for (pi, p) in perms.iter().enumerate() { for kind in 0..7 {
         n += 1; d.insert((2, pi, kind, 0, 0));
+        // kinds 5 and 6: variable 8 refers to the undefined 99 inside a PRODUCT whose other factor is 0 at the given state (x1 = 0): still a variable without a value
         let dvs = [1u64, 6, 7, 8].iter().map(|&i| dv(i, Kind::Continuous, None)).collect();
         let mut i = inst(dvs, f_of(F::Linear(lin(&[(1, 1.0)], 0.0))), vec![]);
         // 6 := x1 + 1 ; 7 := 2*x6 ; 8 := x6*x7   (kind 0);  kind 1: cycle 6 -> 8 -> 7 -> 6;  kind 2: 8 refers to undefined 99; kind 3: self-cycle
         let defs: HashMap<u64, Function> = [
             (6u64, if kind == 4 { f_of(F::Linear(lin(&[(1, 1.0)], 1.0))) } else if kind == 1 { f_of(F::Linear(lin(&[(8, 1.0)], 1.0))) } else if kind == 3 { f_of(F::Linear(lin(&[(6, 1.0)], 1.0))) } else { f_of(F::Linear(lin(&[(1, 1.0)], 1.0))) }),
             (7, f_of(F::Linear(lin(&[(6, 2.0)], 0.0)))),
-            (8, if kind == 4 { f_of(F::Linear(lin(&[(8, 1.0), (6, 1.0)], 0.0))) } else if kind == 2 { f_of(F::Linear(lin(&[(99, 1.0)], 0.0))) } else { f_of(F::Quadratic(quad(&[(6, 7, 1.0)], None))) }),
+            (8, if kind == 4 { f_of(F::Linear(lin(&[(8, 1.0), (6, 1.0)], 0.0))) } else if kind == 2 { f_of(F::Linear(lin(&[(99, 1.0)], 0.0))) }
+                else if kind == 5 { f_of(F::Quadratic(quad(&[(1, 99, 1.0)], Some(lin(&[(6, 1.0)], 0.0))))) } else if kind == 6 { f_of(F::Polynomial(poly(&[(&[1, 99, 6], 2.0), (&[6], 1.0)]))) }
+                else { f_of(F::Quadratic(quad(&[(6, 7, 1.0)], None))) }),
         ].into_iter().collect();
         for id in p { i.decision_variable_dependency.insert(*id, defs[id].clone()); }
         let (tx, rx_) = std::sync::mpsc::channel();
         let i2 = i.clone();
-        std::thread::spawn(move || { let _ = tx.send(i2.evaluate(&state(&[(1, 2.0)])).map_err(|e| e.to_string())); });
+        let x1 = if kind >= 5 { 0.0 } else { 2.0 };
+        std::thread::spawn(move || { let _ = tx.send(i2.evaluate(&state(&[(1, x1)])).map_err(|e| e.to_string())); });
         let r = match rx_.recv_timeout(std::time::Duration::from_secs(10)) { Ok(r) => r, Err(_) => fail!(n, d, "Instance::evaluate did not return within 10 s (hang) on dependencies kind {kind} (0 chain, 1 cycle 6->8->7->6, 2 dangling reference, 3 self-cycle), insertion order {p:?}") };
         match (kind, r) {
             (0, Ok((sol, _))) => { let e = sol.state.unwrap().entries; if e.get(&6) != Some(&3.0) || e.get(&7) != Some(&6.0) || e.get(&8) != Some(&18.0) { fail!(n, d, "dependency chain 6:=x1+1, 7:=2*x6, 8:=x6*x7 at x1=2 (insertion order {p:?}) reports {e:?}, expected 3, 6, 18"); } }
@@ -203,7 +207,10 @@ pub fn c10() -> Outcome {
         p.parameters = [3u64, 4].iter().map(|&i| { let mut q = v1::Parameter::default(); q.id = i; q }).collect();
         p.objective = Some(fs[k].clone());
         p.constraints = vec![con(5, Equality::EqualToZero, fs[(k + 1) % fs.len()].clone()), con(6, Equality::LessThanOrEqualToZero, f_of(F::Quadratic(quad(&[(1, 3, 1.0), (4, 4, 2.0)], Some(lin(&[(2, 1.0)], 0.0)))))),
-                             con(7, Equality::LessThanOrEqualToZero, f_of(F::Linear(lin(&[(4, 1.0), (1, 1.0), (3, -2.0)], 0.0)))), con(9, Equality::EqualToZero, f_of(F::Polynomial(poly(&[(&[3, 4, 1], 1.0), (&[2], 1.0)]))))];
+                             con(7, Equality::LessThanOrEqualToZero, f_of(F::Linear(lin(&[(4, 1.0), (1, 1.0), (3, -2.0)], 0.0)))), con(9, Equality::EqualToZero, f_of(F::Polynomial(poly(&[(&[3, 4, 1], 1.0), (&[2], 1.0)])))),
+                             // explicit zero entries on parameter rows / columns (a dense Q matrix): the parameter ids must disappear with them
+                             con(10, Equality::LessThanOrEqualToZero, f_of(F::Quadratic(quad(&[(3, 1, 2.0), (3, 2, 0.0), (1, 4, 0.0), (4, 2, -1.0), (3, 4, 0.0)], None)))),
+                             con(11, Equality::EqualToZero, f_of(F::Linear(lin(&[(3, 0.0), (1, 1.0), (4, 0.0)], 0.0)))), con(12, Equality::EqualToZero, f_of(F::Polynomial(poly(&[(&[3, 1], 0.0), (&[2], 1.0), (&[4], 0.0)]))))];
         p.removed_constraints = vec![{ let mut r = v1::RemovedConstraint::default(); r.constraint = Some(con(8, Equality::EqualToZero, fs[(k + 2) % fs.len()].clone())); r.removed_reason = "x".into(); r }];
         p.sense = v1::instance::Sense::Maximize as i32;
         let mut h = v1::ConstraintHints::default(); let mut oh = v1::OneHot::default(); oh.constraint_id = 5; oh.decision_variables = vec![1, 2]; h.one_hot_constraints = vec![oh];
@@ -400,8 +407,10 @@ pub fn c13() -> Outcome {
 
 pub fn c15() -> Outcome {
     let mut n = 0; let mut d = BTreeSet::new();
-    for (ii, i) in small_instances().into_iter().enumerate() {
-        n += 1; d.insert((ii, 0u64, 0u64));
+    // every instance shape under BOTH senses (the objective kinds of small_instances() alternate with the sense otherwise)
+    for (ii, i0) in small_instances().into_iter().enumerate() { for sense in [v1::instance::Sense::Minimize, v1::instance::Sense::Maximize] {
+        let mut i = i0.clone(); i.sense = sense as i32;
+        n += 1; d.insert((ii, sense as u64, 0u64));
         let mut m = i.clone(); m.as_minimization_problem();
         let was_max = i.sense == v1::instance::Sense::Maximize as i32;
         if m.sense != v1::instance::Sense::Minimize as i32 || m.constraints != i.constraints || m.decision_variables != i.decision_variables || m.removed_constraints != i.removed_constraints { fail!(n, d, "as_minimization_problem: sense not minimise or constraints/variables touched"); }
@@ -412,7 +421,7 @@ pub fn c15() -> Outcome {
         }
         let mut m2 = m.clone(); m2.as_minimization_problem();
         if m2 != m { fail!(n, d, "as_minimization_problem is not idempotent"); }
-    }
+    } }
     // best feasible: all objective / feasibility patterns over 3 samples with ties, both senses, new and legacy feasibility fields
     // objective values: well separated with a tie; one unit in the last place apart (0.1 + 0.2 vs 0.3); tiny magnitudes around zero - "beats" is the plain order of f64, no tolerance
     for (oi, objs) in [[1.0f64, -2.0, 1.0, 3.0], [0.1 + 0.2, 0.3, 0.1 + 0.2, 0.29999999999999993], [1e-16, 3e-17, 0.0, -1e-17]].into_iter().enumerate() {
